@@ -25,6 +25,7 @@ import (
 	"strconv"
 	"strings"
 	"sync"
+	"sync/atomic"
 	"testing"
 
 	"github.com/valyala/fasthttp/internal/verif/vnet"
@@ -230,9 +231,9 @@ func c11Diff(got, want *c11Snap) (string, string, string) {
 
 type c11KeyT struct{}
 
-type c11Closer struct{ closed *int }
+type c11Closer struct{ closed *atomic.Int64 }
 
-func (c *c11Closer) Close() error { *c.closed++; return nil }
+func (c *c11Closer) Close() error { c.closed.Add(1); return nil }
 
 func c11ArgsList(a *Args) []string {
 	var out []string
@@ -312,7 +313,7 @@ func c11TakeSnapshot(ctx *RequestCtx) *c11Snap {
 }
 
 // c11Mutate changes everything a handler can reach.
-func c11Mutate(ctx *RequestCtx, do string, closes *int) {
+func c11Mutate(ctx *RequestCtx, do string, closes *atomic.Int64) {
 	leave := do == "leave-body"
 	ctx.SetUserValue("c11-k", "v")
 	ctx.SetUserValueBytes([]byte("c11-b"), 7)
@@ -380,7 +381,7 @@ type c11ConnObs struct {
 type c11Obs struct {
 	Conns     []c11ConnObs
 	CtxReused bool // the second connection was served with the first connection's RequestCtx
-	Closes    int
+	Closes    atomic.Int64 // io.Closer user values closed by the server (also from the hijack goroutine)
 }
 
 type c11HookConn struct {
@@ -890,7 +891,7 @@ func TestVerif_C11(t *testing.T) {
 				undisp += len(o.Conns[ci].Resps) - len(o.Conns[ci].Snaps)
 			}
 			r.Add("handler_invocations", int64(calls))
-			r.Add("user_value_closers_closed", int64(o.Closes))
+			r.Add("user_value_closers_closed", o.Closes.Load())
 			if len(o.Conns) == 2 {
 				r.Add("two_connection_histories", 1)
 				if o.CtxReused {
